@@ -44,7 +44,7 @@ func (r *vfRand) Intn(n int) int {
 	}
 	return int(r.Uint64() % uint64(n))
 }
-func (r *vfRand) Bool() bool         { return r.Uint64()&1 == 1 }
+func (r *vfRand) Bool() bool          { return r.Uint64()&1 == 1 }
 func (r *vfRand) Chance(pct int) bool { return r.Intn(100) < pct }
 func (r *vfRand) Bytes(n int) []byte {
 	b := make([]byte, n)
